@@ -100,6 +100,8 @@ where
     /// It is passed straight through to the first trace on the first thread to allow for
     /// reproducibility. For other threads and traces it is regenerated using a [`StdRng`].
     pub(crate) fn spawn<C: Chooser<M>>(options: CheckerBuilder<M>, seed: u64, chooser: C) -> Self {
+        #[cfg(getong_stateright_verif)]
+        use crate::verif::time::{sleep, SystemTime};
         let model = Arc::new(options.model);
         let symmetry = options.symmetry;
         let target_state_count = options.target_state_count;
@@ -154,6 +156,8 @@ where
                         // FIXME: use a reproducible rng, one that will not change over versions.
                         let mut rng = StdRng::seed_from_u64(seed);
                         loop {
+                            #[cfg(getong_stateright_verif)]
+                            crate::verif::yield_point("sim-trace");
                             if shutdown.load(Ordering::Relaxed) {
                                 log::debug!("{}: Got shutdown signal.", t);
                                 break;
@@ -297,6 +301,8 @@ where
             }
 
             state_count.fetch_add(1, Ordering::Relaxed);
+            #[cfg(getong_stateright_verif)]
+            crate::verif::yield_point("sim-state");
 
             if let Some(visitor) = visitor {
                 visitor.visit(
@@ -390,6 +396,8 @@ where
                 };
             }
         }
+        #[cfg(getong_stateright_verif)]
+        crate::verif::yield_point("sim-end");
         // check the eventually properties
         for (i, property) in properties.iter().enumerate() {
             // Once a discovery exists the bits are no longer maintained along the trace (see
